@@ -139,6 +139,15 @@ func TestVerifC01(t *testing.T) {
 			}
 			return
 		}
+		if c.Index%40 == 27 {
+			// the legacy HTTP+SSE client: calls whose POST is unanswered when the event stream ends (c01sse_test.go)
+			spec := genC01SSE(c.R)
+			c.SetSpec(spec)
+			if c.Bubble("", func() { runC01SSE(c, spec) }) {
+				decideC01SSE(c, spec)
+			}
+			return
+		}
 		if c.Index%40 == 11 {
 			// outside the bubble: the real client transport over net/http and a loopback socket (c01real_test.go)
 			spec := genC01Real(c.R)
